@@ -800,8 +800,8 @@ class TreeRun:
         n_given = max(0, count - op.get("short", 0))
         if kind == "text" and n_given == 0:
             n_given = count
-        if kind == "text" and n_given == 1 and not self.program.get("allow_known"):
-            # known finding C01/C08: a one-entry text array reads back as a bare string
+        if kind == "text" and n_given == 1 and assoc == "OBJECT" and not self.program.get("allow_known"):
+            # known finding C01: a one-entry text array on OBJECT association reads back as a bare string
             self.res.count("excluded_by_finding")
             kind = "float"
         vals = (list(op["vals"]) + [None] * count)[:n_given]
